@@ -85,6 +85,23 @@ def keys_equal(ka, kb):
     return z3_and(ts)
 
 
+def used_then_deformed_differs(cfg, Hr, LX, LZ):
+    """Names of the matrices of (construct; use; deform) that differ from the given rows."""
+    import panqec.codes as pc
+    cls, size, name, axis = common.parse_cfg(cfg)
+    c2 = getattr(pc, cls)(*size)
+    c2.n, c2.k, c2.d, c2.stabilizer_matrix, c2.logicals_x, c2.logicals_z
+    if c2.is_css:
+        c2.Hx, c2.Hz
+    c2.deform(name, **({'deformation_axis': axis} if axis else {}))
+    out = []
+    for nm, want, got in (('stabilizer_matrix', Hr, c2.stabilizer_matrix), ('logicals_x', LX, c2.logicals_x),
+                          ('logicals_z', LZ, c2.logicals_z)):
+        if gf2.rows_of(got) != want:
+            out.append(nm)
+    return out
+
+
 def worker(cfg, tier='quick'):
     _install()
     import panqec.codes as pc
@@ -199,6 +216,15 @@ def worker(cfg, tier='quick'):
     col.record('C01/logicals-canonical-commutation', 'sat' if bad else 'unsat', 0, False,
                dict(pairs=bad[:5]) if bad else None, 'ground k x k table (not a quantified statement)')
 
+    # (ii-b) the same object must be valid when it was *used* before being deformed (derived data of the
+    # undeformed code cached): the matrices of such an object are the ones verified above
+    if code.is_deformed:
+        bad_u = used_then_deformed_differs(cfg, Hr, LX, LZ)
+        col.record('C01/object-used-before-deform-has-the-verified-matrices', 'sat' if bad_u else 'unsat',
+                   0, False, dict(used_then_deformed=bad_u) if bad_u else None,
+                   'ground: H, logicals_x, logicals_z of (construct; read k, d, H, Hx, logicals; deform) equal '
+                   'those of (construct; deform)')
+
     # (iv) rank(H) = n - k.  Certificate (independent elimination) ...
     rank, _ = gf2.rank_and_kernel(Hr, 2 * n)
     col.record('C01/rank-certificate', 'unsat' if rank == n - k else 'sat', 0, False,
@@ -276,6 +302,9 @@ def replay(path):
             sa = code.to_bsf(code.get_stabilizer(tuple(w['a'])))
             L = code.logicals_x if w['logical'] == 'X' else code.logicals_z
             bad = bool(np.any(bs_prod(sa, L[w['index']]) % 2))
+        elif w.get('used_then_deformed'):
+            bad = bool(used_then_deformed_differs(cfg, gf2.rows_of(code.stabilizer_matrix),
+                                                  gf2.rows_of(code.logicals_x), gf2.rows_of(code.logicals_z)))
         elif 'canonical' in oid:
             k = code.k
             m = bs_prod(code.logicals_x, code.logicals_z).reshape(k, k)
